@@ -21,6 +21,14 @@ CHECKS = {
             "explicit-state exploration of all thread interleavings of the real SRM code under a controlled scheduler, visited-state cut on raw-memory state hash",
             "All interleavings (no preemption bound) of producers/consumers/releasers/shutdown over the real EbSystemResourceManager.c for every harness size up to 3 objects x 2 producers x 2 consumers x 2 operations; monitors check single holder, conservation, posting order, no lost wake-up, live_count/release_enable semantics, shutdown wake-up, deadlock freedom on every step.",
             "scheduling granularity = SVT mutex/semaphore operations; 64-bit state hash; small scopes", "4/C23"),
+    "C04": ("sched (delay-bounded) + encdrv", "model_checking",
+            "stateless model checking of the whole encoder under a controlled serialising scheduler: exhaustive enumeration of all schedules with <= d delays",
+            "Every schedule with at most 1 delay (thorough: 2 on the smallest session) of complete encode sessions (lp 1/2/4, 1-3 frames) is executed on the real library; each must terminate and yield byte-identical packets and recon.",
+            "atomicity between SVT synchronisation calls; sessions <= 192x128, <= 3 frames, <= 4 logical processors; delay bound", "4/C04"),
+    "C24": ("sched (explicit-state) + seg_h + hook H2", "model_checking",
+            "exhaustive enumeration of picture sizes x segment grids on the real initialiser and protocol; explicit-state exploration of all worker interleavings; trace conformance of the model with real encodes",
+            "All picture sizes up to 24x16 (thorough 65x34) superblocks x all segment grids run the real enc_dec_segments_init and a complete one-worker run of the real assign_enc_dec_segments; all interleavings of 2-3 workers are explored for pictures up to 3x3 (thorough 4x3); the traversal rule is validated against kernel traces of real encodes.",
+            "traversal rule transcribed from mode_decision_kernel (bound by hook-H2 trace conformance); small scopes for (b)", "4/C24"),
 }
 
 NOT_YET = {}
